@@ -1,5 +1,5 @@
 // ======================================================================================
-// units/C18/loc_todo.rs — contracts STATED but NOT YET PROVED.  NOT included by unit.rs /
+// units/C18/loc_todo.rs - contracts STATED but NOT YET PROVED.  NOT included by unit.rs /
 // loc_core.rs, so nothing in here is claimed.  Each hole moves to loc_core.rs once it verifies.
 // ======================================================================================
 
